@@ -394,7 +394,7 @@ void run_C17(void) {
     }
     // layout conversion
     for (int v = 0; v < 4; v++)
-      for (unsigned rep = 0; rep < (th ? 4u : 1u); rep++) layout_case(m, v, rep);
+      for (unsigned rep = 0; rep < (th ? 16u : 3u); rep++) layout_case(m, v, rep);
     // pointwise kernels
     for (int ly = 0; ly < 3; ly++)
       for (int addmul = 0; addmul <= 1; addmul++)
@@ -419,7 +419,7 @@ void run_C17(void) {
       for (uint64_t n = 0; n <= 66; n++) {
         uint64_t nrows = n <= 64 ? n : (n == 65 ? 128 : 1000);
         for (int fam = 0; fam < N_VFAM; fam++)
-          for (unsigned rep = 0; rep < (th ? 6u : 1u); rep++) dot_case(two, avx, nrows, fam, rep);
+          for (unsigned rep = 0; rep < (th ? 40u : 3u); rep++) dot_case(two, avx, nrows, fam, rep);
       }
   // convolution windows
   for (uint64_t sa = 0; sa <= (th ? 9u : 6u); sa++)
